@@ -1085,6 +1085,28 @@ reg("map_blocks", 1, _gen_map_blocks, lambda a, p: a * 2,
     lambda a, p: _cubed().map_blocks(_mb_double, a, dtype=a.dtype), weight=3, tags=("elemwise",))
 
 
+def _mb_add(x, y):
+    return x + y
+
+
+def _gen_map_blocks_np(tp, a):
+    # a NumPy (non-cubed) operand in either position: map_blocks coerces it under the cubed operand's spec.
+    # (a single-block constant, so that it broadcasts against every block of the cubed operand)
+    if not _isnum(a) or a.dtype.kind == "u" or a.ndim == 0 or a.size == 0:
+        return None
+    return dict(first=tp.coin(1, 2), k=tp.randint(-2, 3))
+
+
+def _np_operand(a, p):
+    return np.full((1,) * a.ndim, p["k"], dtype=a.dtype)
+
+
+reg("map_blocks_np", 1, _gen_map_blocks_np, lambda a, p: (_np_operand(a, p) + a) if p["first"] else (a + _np_operand(a, p)),
+    lambda a, p: (_cubed().map_blocks(_mb_add, _np_operand(a, p), a, dtype=a.dtype, chunks=a.chunks) if p["first"]
+                  else _cubed().map_blocks(_mb_add, a, _np_operand(a, p), dtype=a.dtype, chunks=a.chunks)),
+    weight=2, tags=("elemwise",))
+
+
 def _ov_sum(x):
     # sum of each element with its two neighbours along axis 0 (trimmed by map_overlap)
     return x + np.roll(x, 1, axis=0) + np.roll(x, -1, axis=0)
